@@ -117,7 +117,8 @@ func maxInt(a, b int) int {
 func c01History(r *report.R, id string) {
 	h, _ := histCfgFor(r, id)
 	g := newHistGen(h, r.Rand(id))
-	nblocks := r.Pick(45, 200)
+	g.boostRewardFees = true // map-order-sensitive path: which delegations' rewards pay a fee
+	nblocks := r.Pick(60, 200)
 	for b := 0; b < nblocks; b++ {
 		g.block()
 	}
